@@ -199,7 +199,7 @@ def build_driver():
         return True, 'driver up to date'
     for s in srcs:
         shutil.copy(s, bdir)
-    rc, o = run(['ocamlfind', 'ocamlopt', '-O2', '-w', '-a', 'model.mli', 'model.ml', 'driver.ml', '-o', 'driver'], cwd=bdir)
+    rc, o = run(['ocamlfind', 'ocamlopt', '-package', 'unix', '-linkpkg', '-O2', '-w', '-a', 'model.mli', 'model.ml', 'driver.ml', '-o', 'driver'], cwd=bdir)
     if rc == 0:
         open(sf, 'w').write(stamp)
     return rc == 0, o
